@@ -19,11 +19,12 @@ Inductive ppc :=
 Inductive cpc :=
 | CIdle | CHold | CTook (x : item) | CSawClosed | CParked | CWoken | CRelocked
 | CRun (x : item)                          (* callback about to run, outside the lock *)
-| CStopped.
+| CStopped
+| CNotStarted.                             (* Processor.Start() has not been called yet *)
 
 Inductive kpc := KIdle | KHold | KDid | KBc | KWait | KDone.
 
-Inductive tid := TCons | TClose | TProd (i : nat).
+Inductive tid := TCons | TClose | TProd (i : nat) | TStart.
 
 Record cfg := mkCfg {
   cring : ring;
@@ -109,6 +110,15 @@ Definition step_cons (c : cfg) : option cfg :=
                       (if cb_err x then onerror c + 1 else onerror c) in
       Some c'
   | CStopped => None
+  | CNotStarted => None                                               (* no consumer goroutine yet *)
+  end.
+
+(* Processor.Start(): running = true; go run().  Caller contract (all three users create, start and destroy the
+   writer from one goroutine): Start is not called once Close has been. *)
+Definition step_start (c : cfg) : option cfg :=
+  match cons c, closer c with
+  | CNotStarted, KIdle => Some (with_cons c CIdle)
+  | _, _ => None
   end.
 
 Definition with_closer (c : cfg) (k : kpc) : cfg :=
@@ -122,7 +132,11 @@ Definition step_close (c : cfg) : option cfg :=
                   (accepted c) (executed c) (discarded c ++ ring_items (cring c)) (onerror c))
   | KDid => Some (with_closer (with_owner c None) KBc)
   | KBc => Some (with_closer (with_cons c (wake (cons c))) KWait)
-  | KWait => match cons c with CStopped => Some (with_closer c KDone) | _ => None end   (* <-w.done *)
+  | KWait =>                                   (* if w.running { <-w.done } *)
+      match cons c with
+      | CStopped | CNotStarted => Some (with_closer c KDone)
+      | _ => None
+      end
   | KDone => None
   end.
 
@@ -131,6 +145,7 @@ Definition step (c : cfg) (t : tid) : option cfg :=
   | TCons => step_cons c
   | TClose => step_close c
   | TProd i => step_prod c i
+  | TStart => step_start c
   end.
 
 (* a schedule is any list of thread choices; disabled choices are skipped *)
@@ -143,4 +158,4 @@ Fixpoint exec (c : cfg) (sched : list tid) : cfg :=
 End Step.
 
 Definition init_cfg (r : ring) (work : list (list item)) : cfg :=
-  mkCfg r None (map PIdle work) CIdle KIdle [] [] [] 0.
+  mkCfg r None (map PIdle work) CNotStarted KIdle [] [] [] 0.
